@@ -244,20 +244,28 @@ End Hash.
 
 (* =================================================================== *)
 (* Re-announcement: what the client sends when a session opens, and the
-   session manager's per-address bookkeeping (serverSessions). *)
-Inductive request := RegisterTM | RegisterRM (resource : bytes).
+   session manager's per-address bookkeeping (serverSessions).
+   Follows the code AFTER the fix "a newly opened session is told the registered
+   resources again": OnOpen sends RegisterTM and then, on the new session, one
+   RegisterRM per resource manager (branch type) holding resources, carrying all
+   its resource ids (sorted, joined by ","). *)
+Inductive request := RegisterTM | RegisterRM (ids : list bytes).
+
+Definition resource := (N * bytes)%type.   (* branch type, resource id *)
 
 Record client := {
-  cl_resources : list bytes;        (* resource ids held by the resource managers' caches *)
+  cl_resources : list resource;     (* held by the resource managers' caches *)
   cl_cur : option bytes;            (* address of the open session; None = disconnected *)
   cl_server : list (bytes * N);     (* serverSessions: address -> number of recorded sessions *)
   cl_all : N;                       (* allSessions: size of the registry used for selection *)
-  cl_tm : bool                      (* RegisterTM has been written successfully on the open session *)
+  cl_tm : bool;                     (* RegisterTM has been written successfully on the open session *)
+  cl_rm : list resource             (* resources announced on the open session *)
 }.
 Definition cl_connected (c : client) : bool := match cl_cur c with Some _ => true | None => false end.
 
 Inductive cevent :=
-| CRegisterResource (r : bytes)     (* RegisterResource: cached, announced once if connected *)
+| CRegisterResource (t : N) (r : bytes)
+                                    (* RegisterResource: cached, announced at once if connected *)
 | CConnLost (by_peer : bool)        (* OnClose / OnError -> releaseSession; by_peer: the session is
                                        already closed when it is released *)
 | CReconnect (a : bytes) (write_ok : bool).
@@ -265,13 +273,27 @@ Inductive cevent :=
                                        write_ok = false: WritePkg of the RegisterTMRequest fails
                                        (write timeout, full buffer) while the session is open *)
 
-(* gettyClientHandler.OnOpen: registerSession, then RegisterTMRequest; nothing else,
-   whatever the per-address map holds *)
-Definition on_open (c : client) : list request := [RegisterTM].
+Fixpoint dedupN (l : list N) : list N :=
+  match l with
+  | [] => []
+  | x :: l' => if existsb (N.eqb x) l' then dedupN l' else x :: dedupN l'
+  end.
+Definition ids_of (rs : list resource) (t : N) : list bytes :=
+  map snd (filter (fun x => fst x =? t) rs).
+Definition branch_types (rs : list resource) : list N := dedupN (map fst rs).
 
-(* what the property asks a new session to carry *)
-Definition on_open_required (c : client) : list request :=
-  RegisterTM :: map RegisterRM (cl_resources c).
+(* gettyClientHandler.OnOpen: registerSession, RegisterTMRequest, then the requests of
+   rm.registeredResourceRequests on the new session — whatever the per-address map holds *)
+Definition on_open (c : client) : list request :=
+  RegisterTM :: map (fun t => RegisterRM (sort_bytes (ids_of (cl_resources c) t))) (branch_types (cl_resources c)).
+
+(* what the property asks of the requests written on a new session *)
+Definition announces (sent : list request) (r : bytes) : bool :=
+  existsb (fun q => match q with RegisterRM ids => existsb (bytes_eqb r) ids | RegisterTM => false end) sent.
+Definition has_tm (sent : list request) : bool :=
+  existsb (fun q => match q with RegisterTM => true | _ => false end) sent.
+Definition reannounced (c : client) (sent : list request) : bool :=
+  has_tm sent && forallb (fun x => announces sent (snd x)) (cl_resources c).
 
 Fixpoint cnt_upd (t : list (bytes * N)) (a : bytes) (f : N -> N) : list (bytes * N) :=
   match t with
@@ -286,10 +308,11 @@ Fixpoint cnt_of (t : list (bytes * N)) (a : bytes) : N :=
 
 Definition cstep (c : client) (e : cevent) : client * list request :=
   match e with
-  | CRegisterResource r =>
-      ({| cl_resources := cl_resources c ++ [r]; cl_cur := cl_cur c; cl_server := cl_server c;
-          cl_all := cl_all c; cl_tm := cl_tm c |},
-       if cl_connected c then [RegisterRM r] else [])
+  | CRegisterResource t r =>
+      ({| cl_resources := cl_resources c ++ [(t, r)]; cl_cur := cl_cur c; cl_server := cl_server c;
+          cl_all := cl_all c; cl_tm := cl_tm c;
+          cl_rm := if cl_connected c then cl_rm c ++ [(t, r)] else cl_rm c |},
+       if cl_connected c then [RegisterRM [r]] else [])
   | CConnLost by_peer =>
       (* releaseSession: always dropped from allSessions; dropped from the per-address
          map (and closed) only when it is still open: a peer-closed session stays recorded *)
@@ -298,22 +321,24 @@ Definition cstep (c : client) (e : cevent) : client * list request :=
       | Some a =>
           ({| cl_resources := cl_resources c; cl_cur := None;
               cl_server := if by_peer then cl_server c else cnt_upd (cl_server c) a (fun v => v - 1);
-              cl_all := cl_all c - 1; cl_tm := false |}, [])
+              cl_all := cl_all c - 1; cl_tm := false; cl_rm := [] |}, [])
       end
   | CReconnect a true =>
       ({| cl_resources := cl_resources c; cl_cur := Some a;
-          cl_server := cnt_upd (cl_server c) a (fun v => v + 1); cl_all := cl_all c + 1; cl_tm := true |},
+          cl_server := cnt_upd (cl_server c) a (fun v => v + 1); cl_all := cl_all c + 1; cl_tm := true;
+          cl_rm := cl_resources c |},
        on_open c)
   | CReconnect a false =>
       (* registerSession, the announcement cannot be written, OnOpen releases the (open)
          session again: nothing stays registered, getty will reconnect *)
       ({| cl_resources := cl_resources c; cl_cur := None;
           cl_server := cnt_upd (cnt_upd (cl_server c) a (fun v => v + 1)) a (fun v => v - 1);
-          cl_all := cl_all c; cl_tm := false |}, [])
+          cl_all := cl_all c; cl_tm := false; cl_rm := [] |}, [])
   end.
 
 (* the client before its first connection *)
-Definition cinit : client := {| cl_resources := []; cl_cur := None; cl_server := []; cl_all := 0; cl_tm := false |}.
+Definition cinit : client :=
+  {| cl_resources := []; cl_cur := None; cl_server := []; cl_all := 0; cl_tm := false; cl_rm := [] |}.
 
 (* runs a history; returns the final client and, for every session that stays
    established (CReconnect _ true) in order, the requests written on it together with
@@ -327,10 +352,16 @@ Fixpoint crun (c : client) (evs : list cevent) : client * list (client * list re
       (cf, match e with CReconnect _ true => (c, out) :: rest | _ => rest end)
   end.
 
+Fixpoint ids_eqb (a b : list bytes) : bool :=
+  match a, b with
+  | [], [] => true
+  | x :: a', y :: b' => bytes_eqb x y && ids_eqb a' b'
+  | _, _ => false
+  end.
 Definition req_eqb (a b : request) : bool :=
   match a, b with
   | RegisterTM, RegisterTM => true
-  | RegisterRM x, RegisterRM y => bytes_eqb x y
+  | RegisterRM x, RegisterRM y => ids_eqb x y
   | _, _ => false
   end.
 Definition includes (sent required : list request) : bool :=
